@@ -20,7 +20,17 @@ import (
 // subSchema: with abstract, events come in two object types behind an interface and a union, and two
 // more subscription fields return those (the type of every single event decides what its subscriber's
 // selection gives).
-func subSchema(abstract bool) *hx.Schema {
+func subSchema(abstract bool, subRoot string) *hx.Schema {
+	s := subSchemaPlain(abstract)
+	if subRoot != "" && subRoot != "Subscription" {
+		// a schema block that names another type as the subscription root
+		s.Type("Subscription").Name = subRoot
+		s.Roots = map[string]string{"query": "Query", "subscription": subRoot}
+	}
+	return s
+}
+
+func subSchemaPlain(abstract bool) *hx.Schema {
 	idArg := func() []*hx.Arg { return []*hx.Arg{{Name: "id", Type: hx.Named("String").NN()}} }
 	if abstract {
 		return &hx.Schema{Types: []*hx.TypeDef{
@@ -28,7 +38,9 @@ func subSchema(abstract bool) *hx.Schema {
 			{Kind: hx.KInterface, Name: "Thing", Fields: []*hx.Field{{Name: "id", Type: hx.Named("String")}, {Name: "n", Type: hx.Named("Int")}}},
 			{Kind: hx.KObject, Name: "Event", Interfaces: []string{"Thing"}, Fields: []*hx.Field{
 				{Name: "id", Type: hx.Named("String")}, {Name: "n", Type: hx.Named("Int")}, {Name: "tags", Type: hx.ListOf(hx.Named("String"))},
-				{Name: "inner", Type: hx.Named("Event")}, {Name: "kind", Type: hx.Named("Kind")}, {Name: "f", Type: hx.Named("Float")}, {Name: "more", Type: hx.ListOf(hx.Named("Event"))}}},
+				{Name: "inner", Type: hx.Named("Event")}, {Name: "kind", Type: hx.Named("Kind")}, {Name: "f", Type: hx.Named("Float")}, {Name: "more", Type: hx.ListOf(hx.Named("Event"))},
+				// (a field that is named like a subscription field)
+				{Name: "watch", Type: hx.Named("String")}}},
 			{Kind: hx.KObject, Name: "Note", Interfaces: []string{"Thing"}, Fields: []*hx.Field{
 				{Name: "id", Type: hx.Named("String")}, {Name: "n", Type: hx.Named("Int")}, {Name: "text", Type: hx.Named("String")},
 				{Name: "about", Type: hx.Named("Thing")}, {Name: "items", Type: hx.ListOf(hx.Named("Item"))}}},
@@ -44,7 +56,9 @@ func subSchema(abstract bool) *hx.Schema {
 		{Kind: hx.KEnum, Name: "Kind", Values: []*hx.EnumValue{{Name: "ALERT"}, {Name: "INFO"}}},
 		{Kind: hx.KObject, Name: "Event", Fields: []*hx.Field{
 			{Name: "id", Type: hx.Named("String")}, {Name: "n", Type: hx.Named("Int")}, {Name: "tags", Type: hx.ListOf(hx.Named("String"))},
-			{Name: "inner", Type: hx.Named("Event")}, {Name: "kind", Type: hx.Named("Kind")}, {Name: "f", Type: hx.Named("Float")}, {Name: "more", Type: hx.ListOf(hx.Named("Event"))}}},
+			{Name: "inner", Type: hx.Named("Event")}, {Name: "kind", Type: hx.Named("Kind")}, {Name: "f", Type: hx.Named("Float")}, {Name: "more", Type: hx.ListOf(hx.Named("Event"))},
+			// (a field that is named like a subscription field)
+			{Name: "watch", Type: hx.Named("String")}}},
 		{Kind: hx.KObject, Name: "Query", Fields: []*hx.Field{{Name: "a", Type: hx.Named("Int")}}},
 		{Kind: hx.KObject, Name: "Subscription", Fields: []*hx.Field{
 			{Name: "watch", Type: hx.Named("Event"), Args: idArg()}, {Name: "listen", Type: hx.Named("Event"), Args: idArg()},
@@ -111,6 +125,7 @@ func subGraph(t *rapid.T) *hx.Graph {
 		nd.F["inner"] = ref(lab + "inner")
 		nd.F["kind"] = hx.Str(rapid.SampledFrom([]string{"ALERT", "INFO"}).Draw(t, lab+"kind"))
 		nd.F["f"] = hx.F64(float64(rapid.IntRange(-16, 16).Draw(t, lab+"f")) / 8)
+		nd.F["watch"] = hx.Str(fmt.Sprintf("w-%d", i))
 		var more []hx.Val
 		for j := 0; j < rapid.IntRange(0, 2).Draw(t, lab+"nmore"); j++ {
 			more = append(more, ref(fmt.Sprintf("%smore%d", lab, j)))
@@ -261,6 +276,9 @@ type c19Case struct {
 	// Faults: fields of events whose resolver fails (strategies R and A): the subscriber still gets
 	// its message, with null at that position, and the publish reports an error
 	Faults []hx.Fault `json:"faults,omitempty"`
+	// SubRoot: the name of the subscription root type ("" = Subscription, implied schema; anything else
+	// is named by a schema block)
+	SubRoot string `json:"sub_root,omitempty"`
 }
 
 func genCaseC19(rt *rapid.T) *c19Case {
@@ -282,7 +300,10 @@ func genCaseC19(rt *rapid.T) *c19Case {
 			}
 		}
 	}
-	schema := subSchema(c.Abstract)
+	if rapid.IntRange(0, 3).Draw(rt, "subscriptionRootRenamed") == 0 {
+		c.SubRoot = "Events"
+	}
+	schema := subSchema(c.Abstract, c.SubRoot)
 	var eventNodes []int
 	for _, nd := range c.Graph.Nodes {
 		if nd.Type == "Event" {
@@ -453,7 +474,13 @@ func genCaseC19(rt *rapid.T) *c19Case {
 // runHistory executes a history against ggql and the list model.
 func runHistory(cc *c19Case) (ds []hx.Discrepancy, traits map[string]bool, hist []string) {
 	traits = map[string]bool{}
-	c := &exec.Case{Schema: subSchema(cc.Abstract), Graph: cc.Graph, ListSeed: cc.ListSeed, Faults: cc.Faults}
+	subRoot := "Subscription"
+	if cc.SubRoot != "" {
+		subRoot = cc.SubRoot
+		traits["subscription-root-type-with-another-name"] = true
+	}
+	cc.Graph.Nodes[1].Type = subRoot
+	c := &exec.Case{Schema: subSchema(cc.Abstract, cc.SubRoot), Graph: cc.Graph, ListSeed: cc.ListSeed, Faults: cc.Faults}
 	if cc.Abstract {
 		c.Register = []string{"Event", "Note"}
 	}
@@ -608,11 +635,11 @@ func runHistory(cc *c19Case) (ds []hx.Discrepancy, traits map[string]bool, hist 
 			case "inline", "inline-typed":
 				on := ""
 				if op.Wrap == "inline-typed" {
-					on = "Subscription"
+					on = subRoot
 				}
 				doc.Ops[0].Sels = []*hx.Sel{{Kind: "inline", On: on, Sels: doc.Ops[0].Sels}}
 			case "spread":
-				doc.Frags = append(append([]*hx.Frag{}, doc.Frags...), &hx.Frag{Name: "SubF", On: "Subscription", Sels: doc.Ops[0].Sels})
+				doc.Frags = append(append([]*hx.Frag{}, doc.Frags...), &hx.Frag{Name: "SubF", On: subRoot, Sels: doc.Ops[0].Sels})
 				doc.Ops[0].Sels = []*hx.Sel{{Kind: "spread", Name: "SubF"}}
 			}
 			if op.Wrap != "" {
